@@ -142,7 +142,7 @@ fn tokio_probe(script: &[&str], out: &mut Out) {
     let s = signal_hook_tokio::Signals::new(&[10, 12]).unwrap();
     let h = s.handle();
     run_stream(s, h, script, out, |woken| {
-        for _ in 0..20 {
+        for _ in 0..60 {
             rt.block_on(async { tokio::time::sleep(Duration::from_millis(5)).await });
             if woken() {
                 break;
@@ -156,7 +156,7 @@ fn asyncstd_probe(script: &[&str], out: &mut Out) {
     let h = s.handle();
     run_stream(s, h, script, out, |woken| {
         // async-io drives its reactor on its own thread while nobody blocks on a future
-        for _ in 0..40 {
+        for _ in 0..100 {
             std::thread::sleep(Duration::from_millis(5));
             if woken() {
                 break;
@@ -201,7 +201,7 @@ macro_rules! mio_probe {
                     'T' => {
                         let mut n = 0;
                         loop {
-                            match poll.poll(&mut events, Some(Duration::from_millis(60))) {
+                            match poll.poll(&mut events, Some(Duration::from_millis(150))) {
                                 Ok(()) => {
                                     n = events.iter().filter(|e| e.token() == Token(7) && e.is_readable()).count();
                                     break;
